@@ -15,9 +15,10 @@ func init() { close(closed) }
 // Chan is a lazily allocated chan struct{} that avoids allocating if
 // it is closed before being used for anything.
 type Chan struct {
-	done uint32
-	mu   sync.Mutex
-	ch   chan struct{}
+	done   uint32
+	mu     sync.Mutex
+	ch     chan struct{}
+	closed bool
 }
 
 func (c *Chan) do(f func()) bool {
@@ -44,6 +45,7 @@ func (c *Chan) setFresh() {
 // setClosed sets the channel to an already closed one.
 func (c *Chan) setClosed() {
 	c.ch = closed
+	c.closed = true
 }
 
 // Close tries to set the channel to an already closed one if
@@ -51,7 +53,12 @@ func (c *Chan) setClosed() {
 // one otherwise.
 func (c *Chan) Close() {
 	if !c.do(c.setClosed) {
-		close(c.ch)
+		c.mu.Lock()
+		if !c.closed {
+			c.closed = true
+			close(c.ch)
+		}
+		c.mu.Unlock()
 	}
 }
 
